@@ -11,6 +11,7 @@ import (
 	"time"
 
 	"github.com/gnolang/gno/gno.land/pkg/gnoland"
+	"github.com/gnolang/gno/tm2/pkg/amino"
 	abci "github.com/gnolang/gno/tm2/pkg/bft/abci/types"
 	bft "github.com/gnolang/gno/tm2/pkg/bft/types"
 	dbm "github.com/gnolang/gno/tm2/pkg/db"
@@ -354,6 +355,24 @@ func c27CheckPoint(ref *c27Ref, k int) (int, error) {
 	if d := ec.Diff(dump, ref.Dump[h], nil); d != "" {
 		return h, fmt.Errorf("%s: reopened at height %d but the committed contents differ from the uncrashed run at that height (A=crashed, B=uncrashed):\n%s", where, h, d)
 	}
+	// 3b. the persisted last block header (base store, outside the VM key
+	// space of the dump) belongs to the same height
+	hb, _ := db.Get([]byte("s/_/last_header"))
+	if h == 0 && hb != nil {
+		return h, fmt.Errorf("%s: reopened at height 0 but a last block header is persisted", where)
+	}
+	if h > 0 {
+		var hdr bft.Header
+		if hb == nil {
+			return h, fmt.Errorf("%s: reopened at height %d but no last block header is persisted", where, h)
+		}
+		if err := amino.Unmarshal(hb, &hdr); err != nil {
+			return h, fmt.Errorf("%s: persisted last block header does not decode: %v", where, err)
+		}
+		if hdr.Height != int64(h) {
+			return h, fmt.Errorf("%s: reopened at height %d but the persisted last block header is of height %d", where, h, hdr.Height)
+		}
+	}
 	// 4. the chain continues from it with the same hashes and results
 	c := &ec.Chain{DB: db, App: app, Opts: ref.Opts, Height: int64(h)}
 	if h == 0 {
@@ -439,6 +458,7 @@ func c27Exec(ctx *vk.Ctx, c c27Case) error {
 			return err
 		}
 		heights[h] = true
+		ctx.ClassIf(c27RawDiff(c27Rebuild(ref.Log, k), c27Rebuild(ref.Log, ref.EndIdx[h])) == "", "crash-image-byte-identical-to-uncrashed-image-at-h")
 		ctx.Class("crash-points")
 		if h > 0 && h < last {
 			for b := h + 1; b <= last; b++ {
@@ -462,4 +482,3 @@ func TestC27_CrashPoints(t *testing.T) {
 	})
 }
 
-var _ = bft.Header{}
